@@ -24,6 +24,10 @@ fn menu(acc: &mut Acc, e: &Envelope, label: &dyn Fn() -> String, collect: Option
     let orig = bind::observe(e);
     let mut ds: Vec<D> = vec![]; collect_digests(&orig, &mut ds);
     ds.push(families::absent_digest());
+    // a leaf that EMBEDS an envelope: the digests of the embedded envelope's own elements are not digests of this envelope's elements, so as
+    // targets they are "absent" - and the leaf, being an element like any other, must stay as it is
+    { fn has_embedded(o: &bind::O) -> bool { match o { bind::O::Leaf(_, b) => b.starts_with(&[0xd8, 0xc8]), _ => o.children().iter().any(|(_, c)| has_embedded(c)) } }
+      if has_embedded(&orig) && ds.len() <= 7 { ds.extend(families::embedded_inner_digests()) } }
     let k = ds.len();
     let mut out = collect;
     for mask in families::masks(k) {
@@ -86,7 +90,7 @@ pub fn run(ctx: &Ctx) -> i32 {
     let (w1, w2) = if th { (8, 6) } else { (7, 5) };
     let mut trees = families::plain(w1);
     let ntrees_plain = trees.len();
-    trees.extend(families::decode_only()); trees.extend(families::nsn());
+    trees.extend(families::decode_only()); trees.extend(families::nsn()); trees.extend(families::valued());
     let acc = trees.par_iter().enumerate().with_max_len(1).map(|(ti, m)| {
         let mut acc = Acc::new();
         acc.inc("trees");
